@@ -235,6 +235,10 @@ class Executor(Engine):
                     value._as_bag = True     # the list is only ever used as a multiset (contract `locals`): exact multiplicities
             if isinstance(ty, TDict):
                 value._dict_ty = ty
+                if isinstance(value, ast.IfExp):        # x = {..} if c else {}: both arms are dictionaries of the declared type
+                    for arm in (value.body, value.orelse):
+                        if isinstance(arm, ast.Dict):
+                            arm._dict_ty = ty
             if isinstance(ty, TOpt) and isinstance(ty.inner, TDict):
                 value._dict_ty = ty.inner
             if isinstance(ty, TOpt) and isinstance(ty.inner, (TList, TSet)):
